@@ -1,5 +1,5 @@
 (** * zhttp dispatch, URL parameters and decode failures (property C15). *)
-From Coq Require Import String List Bool Ascii Lia.
+From Coq Require Import String List Bool Ascii Arith Lia.
 From Zog Require Import Model.Val Model.Engine Model.Http.
 Import ListNotations.
 Open Scope string_scope.
@@ -33,23 +33,162 @@ Proof.
   destruct (String.eqb_spec m "GET"); [contradiction|]. destruct (String.eqb_spec m "HEAD"); [contradiction|]. reflexivity.
 Qed.
 
-Lemma source_json_iff m ct : http_source m ct = SrcJSON <-> (m <> "GET" /\ m <> "HEAD" /\ before_semi ct = "application/json").
+Lemma source_json_iff m ct : http_source m ct = SrcJSON <-> (m <> "GET" /\ m <> "HEAD" /\ media_is "application/json" (before_semi ct) = true).
 Proof.
   unfold http_source, by_media_type. destruct (String.eqb_spec m "GET"); [cbn; split; [discriminate | tauto]|].
   destruct (String.eqb_spec m "HEAD"); [cbn; split; [discriminate | tauto]|]. cbn [orb].
-  destruct (String.eqb_spec (before_semi ct) "application/json").
+  destruct (media_is "application/json" (before_semi ct)).
   - tauto.
-  - destruct (String.eqb (before_semi ct) "application/x-www-form-urlencoded"); split; try discriminate; tauto.
+  - destruct (media_is "application/x-www-form-urlencoded" (before_semi ct)); split; try discriminate; intros (_ & _ & H); discriminate.
 Qed.
 
-Lemma source_form_iff m ct : http_source m ct = SrcForm <-> (m <> "GET" /\ m <> "HEAD" /\ before_semi ct = "application/x-www-form-urlencoded").
+Lemma source_form_iff m ct : http_source m ct = SrcForm <->
+  (m <> "GET" /\ m <> "HEAD" /\ media_is "application/json" (before_semi ct) = false
+   /\ media_is "application/x-www-form-urlencoded" (before_semi ct) = true).
 Proof.
   unfold http_source, by_media_type. destruct (String.eqb_spec m "GET"); [cbn; split; [discriminate | tauto]|].
   destruct (String.eqb_spec m "HEAD"); [cbn; split; [discriminate | tauto]|]. cbn [orb].
-  destruct (String.eqb_spec (before_semi ct) "application/json") as [E|E].
-  - split; [discriminate|]. intros (_ & _ & H). rewrite E in H. discriminate.
-  - destruct (String.eqb_spec (before_semi ct) "application/x-www-form-urlencoded"); split; try discriminate; tauto.
+  destruct (media_is "application/json" (before_semi ct)).
+  - split; [discriminate|]. intros (_ & _ & H & _). discriminate.
+  - destruct (media_is "application/x-www-form-urlencoded" (before_semi ct)); split; try discriminate; try tauto.
+    intros (_ & _ & _ & H). discriminate.
 Qed.
+
+(** ** What [media_is] accepts.
+    Every spelling RFC 9110 allows — any mix of upper and lower case, white space on either side —
+    is accepted; and among ASCII texts nothing else is. *)
+Fixpoint ws_only (s : string) : bool :=
+  match s with EmptyString => true | String a r => ascii_space a && ws_only r end.
+Fixpoint lower_str (s : string) : string :=
+  match s with EmptyString => EmptyString | String a r => String (lower_ascii a) (lower_str r) end.
+Fixpoint all_ascii (s : string) : bool :=
+  match s with EmptyString => true | String a r => Nat.ltb (byte a) 128 && all_ascii r end.
+
+Lemma ws_only_blank r : ws_only r = true -> blank r = true.
+Proof.
+  induction r as [|a r IH]; [reflexivity|]. cbn [ws_only]. intros H. apply andb_prop in H. destruct H as [Ha Hr].
+  cbn [blank]. rewrite Ha. now apply IH.
+Qed.
+
+Lemma lower_is_core : forall core t r, lower_str core = t -> ws_only r = true -> lower_is t (core ++ r) = true.
+Proof.
+  induction core as [|c cr IH]; intros t r E W; cbn in E; subst t.
+  - cbn. now apply ws_only_blank.
+  - cbn [append lower_str lower_is]. rewrite Ascii.eqb_refl. now apply IH.
+Qed.
+
+Lemma space_prefix_ws a r : ascii_space a = true -> space_prefix (String a r) = Some r.
+Proof. intros H. cbn [space_prefix]. now rewrite H. Qed.
+
+Lemma ltrim_fuel_ws : forall l x n, ws_only l = true -> space_prefix x = None -> String.length l <= n ->
+  ltrim_fuel n (l ++ x) = x.
+Proof.
+  induction l as [|a l IH]; intros x n W N L.
+  - cbn [append]. destruct n; [reflexivity|]. cbn [ltrim_fuel]. now rewrite N.
+  - cbn [ws_only] in W. apply andb_prop in W. destruct W as [Wa Wl]. cbn [String.length] in L.
+    destruct n as [|n]; [lia|]. cbn [append ltrim_fuel]. rewrite (space_prefix_ws a (l ++ x) Wa). apply IH; [assumption | assumption | lia].
+Qed.
+
+Lemma length_app_str (a b : string) : String.length (a ++ b) = String.length a + String.length b.
+Proof. induction a as [|c a IH]; cbn; [reflexivity | now rewrite IH]. Qed.
+
+Lemma visible_not_space c s : 32 < byte c < 127 -> space_prefix (String c s) = None.
+Proof.
+  intros Hc. cbn [space_prefix]. unfold ascii_space.
+  replace (Nat.leb (byte c) 13) with false by (symmetry; apply Nat.leb_gt; lia).
+  replace (Nat.eqb (byte c) 32) with false by (symmetry; apply Nat.eqb_neq; lia). rewrite andb_false_r. cbn [orb].
+  destruct s as [|b r2]; [reflexivity|].
+  replace (Nat.eqb (byte c) 194) with false by (symmetry; apply Nat.eqb_neq; lia). cbn [andb].
+  destruct r2 as [|c3 r3]; [reflexivity|].
+  replace (Nat.eqb (byte c) 225) with false by (symmetry; apply Nat.eqb_neq; lia).
+  replace (Nat.eqb (byte c) 226) with false by (symmetry; apply Nat.eqb_neq; lia).
+  replace (Nat.eqb (byte c) 227) with false by (symmetry; apply Nat.eqb_neq; lia). reflexivity.
+Qed.
+
+Lemma lower_ascii_byte a : byte (lower_ascii a) = byte a \/ (65 <= byte a <= 90 /\ byte (lower_ascii a) = byte a + 32).
+Proof.
+  unfold lower_ascii. destruct (Nat.leb 65 (byte a) && Nat.leb (byte a) 90) eqn:E; [right | now left].
+  apply andb_prop in E. destruct E as [E1 E2]. apply Nat.leb_le in E1, E2. split; [lia|].
+  unfold byte. rewrite nat_ascii_embedding; [reflexivity|]. unfold byte in *. lia.
+Qed.
+
+(** a target: non-empty, and its first character is a visible ASCII character (trimming stops there) *)
+Definition starts_visible (t : string) : bool :=
+  match t with EmptyString => false | String a _ => Nat.ltb 32 (byte a) && Nat.ltb (byte a) 127 end.
+
+(** every RFC spelling is accepted: case does not matter, white space around the type does not matter *)
+Theorem media_is_accepts_every_spelling t l core r :
+  starts_visible t = true -> ws_only l = true -> ws_only r = true -> lower_str core = t ->
+  media_is t (l ++ core ++ r) = true.
+Proof.
+  intros V Wl Wr E. unfold media_is, ltrim.
+  assert (N : space_prefix (core ++ r) = None).
+  { destruct core as [|c cr]; cbn in E; subst t; [discriminate|].
+    cbn [starts_visible] in V. apply andb_prop in V. destruct V as [V1 V2]. apply Nat.ltb_lt in V1, V2.
+    cbn [append]. apply visible_not_space. destruct (lower_ascii_byte c) as [H | [H1 H2]]; lia. }
+  rewrite (ltrim_fuel_ws l (core ++ r) _ Wl N) by (rewrite length_app_str; lia).
+  now apply lower_is_core.
+Qed.
+
+(** conversely, an ASCII text that is accepted is one of those spellings *)
+Lemma space_prefix_ascii s r : all_ascii s = true -> space_prefix s = Some r ->
+  exists a, s = String a r /\ ascii_space a = true.
+Proof.
+  destruct s as [|a s1]; [discriminate|]. cbn [all_ascii space_prefix]. intros A H. apply andb_prop in A. destruct A as [Aa A1].
+  apply Nat.ltb_lt in Aa. destruct (ascii_space a) eqn:S; [injection H as <-; now exists a|]. exfalso.
+  destruct s1 as [|b s2]; [discriminate|].
+  replace (Nat.eqb (byte a) 194) with false in H by (symmetry; apply Nat.eqb_neq; lia). cbn [andb] in H.
+  destruct s2 as [|c s3]; [discriminate|].
+  replace (Nat.eqb (byte a) 225) with false in H by (symmetry; apply Nat.eqb_neq; lia).
+  replace (Nat.eqb (byte a) 226) with false in H by (symmetry; apply Nat.eqb_neq; lia).
+  replace (Nat.eqb (byte a) 227) with false in H by (symmetry; apply Nat.eqb_neq; lia). discriminate.
+Qed.
+
+Lemma ltrim_fuel_ascii : forall n s, all_ascii s = true -> exists l, s = l ++ ltrim_fuel n s /\ ws_only l = true /\ all_ascii (ltrim_fuel n s) = true.
+Proof.
+  induction n as [|n IH]; intros s A; [exists EmptyString; now repeat split|]. cbn [ltrim_fuel].
+  destruct (space_prefix s) as [r|] eqn:P; [|exists EmptyString; now repeat split].
+  destruct (space_prefix_ascii s r A P) as (a & -> & Sa). cbn [all_ascii] in A. apply andb_prop in A. destruct A as [_ Ar].
+  destruct (IH r Ar) as (l & El & Wl & Al). exists (String a l). cbn [append ws_only]. rewrite Sa, Wl. repeat split; [now f_equal | assumption].
+Qed.
+
+Lemma blank_ascii s : all_ascii s = true -> blank s = true -> ws_only s = true.
+Proof.
+  induction s as [|a s IH]; [reflexivity|]. cbn [all_ascii]. intros A B. apply andb_prop in A. destruct A as [Aa As]. apply Nat.ltb_lt in Aa.
+  cbn [blank] in B. cbn [ws_only]. destruct (ascii_space a) eqn:S; [now apply IH|]. exfalso.
+  destruct s as [|b s2]; [discriminate|].
+  replace (Nat.eqb (byte a) 194) with false in B by (symmetry; apply Nat.eqb_neq; lia). cbn [andb] in B.
+  destruct s2 as [|c s3]; [discriminate|].
+  replace (Nat.eqb (byte a) 225) with false in B by (symmetry; apply Nat.eqb_neq; lia).
+  replace (Nat.eqb (byte a) 226) with false in B by (symmetry; apply Nat.eqb_neq; lia).
+  replace (Nat.eqb (byte a) 227) with false in B by (symmetry; apply Nat.eqb_neq; lia). discriminate.
+Qed.
+
+Lemma lower_is_ascii : forall t s, all_ascii s = true -> lower_is t s = true ->
+  exists core r, s = core ++ r /\ lower_str core = t /\ ws_only r = true.
+Proof.
+  induction t as [|a t IH]; intros s A H.
+  - exists EmptyString, s. cbn in H. repeat split. now apply blank_ascii.
+  - destruct s as [|c s1]; [discriminate|]. cbn [all_ascii] in A. apply andb_prop in A. destruct A as [Ac A1]. apply Nat.ltb_lt in Ac.
+    cbn [lower_is] in H. destruct (Ascii.eqb_spec (lower_ascii c) a) as [E|NE].
+    + destruct (IH s1 A1 H) as (core & r & -> & El & Wr). exists (String c core), r. cbn [append lower_str]. now rewrite E, El.
+    + exfalso. destruct s1 as [|b s2]; [discriminate|].
+      replace (Nat.eqb (byte c) 196) with false in H by (symmetry; apply Nat.eqb_neq; lia). rewrite andb_false_r in H. cbn [andb] in H.
+      destruct s2 as [|c3 s3]; [discriminate|].
+      replace (Nat.eqb (byte c) 226) with false in H by (symmetry; apply Nat.eqb_neq; lia). rewrite andb_false_r in H. discriminate.
+Qed.
+
+Theorem media_is_ascii_only_spellings t s : all_ascii s = true -> media_is t s = true ->
+  exists l core r, s = l ++ core ++ r /\ ws_only l = true /\ ws_only r = true /\ lower_str core = t.
+Proof.
+  intros A H. unfold media_is, ltrim in H. destruct (ltrim_fuel_ascii (String.length s) s A) as (l & El & Wl & Al).
+  destruct (lower_is_ascii t _ Al H) as (core & r & Ec & Lc & Wr). exists l, core, r. rewrite <- Ec. now repeat split.
+Qed.
+
+(** the dispatch before the repair rejected spellings the RFC allows *)
+Lemma legacy_dispatch_refuted : exists ct,
+  by_media_type_legacy (before_semi ct) = SrcQuery /\ by_media_type (before_semi ct) = SrcJSON.
+Proof. exists "Application/JSON ; charset=utf-8". split; reflexivity. Qed.
 
 (** ** URL parameters: repeated or []-suffixed => list, single => string, missing => absent *)
 Lemma url_get_missing m k : alookup k m = None -> parse_zero (url_get m k) = true.
